@@ -472,10 +472,12 @@ pub(crate) fn created(stat: &Stat) -> SystemTime {
 
 #[allow(clippy::cast_sign_loss)] // Checked.
 fn timestamp(ts: &libc::statx_timestamp) -> SystemTime {
-    let dur = Duration::new(ts.tv_sec as u64, ts.tv_nsec);
+    // NOTE: `tv_nsec` always counts forwards from `tv_sec`, also for times
+    // before the Unix epoch (negative `tv_sec`).
+    let nanos = Duration::from_nanos(u64::from(ts.tv_nsec));
     if ts.tv_sec.is_negative() {
-        SystemTime::UNIX_EPOCH - dur
+        SystemTime::UNIX_EPOCH - Duration::from_secs(ts.tv_sec.unsigned_abs()) + nanos
     } else {
-        SystemTime::UNIX_EPOCH + dur
+        SystemTime::UNIX_EPOCH + Duration::from_secs(ts.tv_sec.unsigned_abs()) + nanos
     }
 }
